@@ -898,8 +898,8 @@ Proof.
         intros Hin. apply in_map_iff in Hin. destruct Hin as (m & Hm & Hin).
         rewrite Forall_forall in E2. specialize (E2 _ Hin). cbn [set_block set_blocks d_table] in Hm. lia.
       * apply Forall_app. split.
-        -- eapply Forall_impl; [|exact E2]. intros m Hm. rewrite Hst2. cbn [d_table]. rewrite app_length. cbn. lia.
-        -- constructor; [|constructor]. rewrite Hst2. cbn [mv m_tmp set_block set_blocks d_table]. rewrite app_length. cbn. lia.
+        -- eapply Forall_impl; [|exact E2]. intros m Hm. cbv beta in Hm. rewrite Hst2. cbn [d_table]. rewrite app_length, Hlen1. cbn [length]. lia.
+        -- constructor; [|constructor]. rewrite Hst2. cbn [mv m_tmp set_block set_blocks d_table]. rewrite app_length. cbn [length]. lia.
     + rewrite map_app. cbn [map mv m_srcidx m_srcoff]. apply NoDup_app_one; [exact F|].
       intros Hin. apply in_map_iff in Hin. destruct Hin as (m & Hm & Hin).
       rewrite Forall_forall in Hkeys. specialize (Hkeys _ Hin). injection Hm as Hm1 Hm2.
@@ -921,3 +921,360 @@ Proof.
   - destruct r; cbn; congruence.
   - destruct r; cbn; try discriminate. intros _. apply Hrun'. reflexivity.
 Qed.
+
+(* ------------------------------------------------------------------ the handlers *)
+
+Lemma key_above_weaken bi h new : Forall (key_above bi h) new -> Forall (key_above_eq bi h) new.
+Proof. apply Forall_impl. intros m [K|K]; [left; exact K|right; lia]. Qed.
+
+Lemma step_post_nil st0 ms0 p0 ix bi h new cs' r :
+  CInv st0 ms0 p0 ix cs' new -> Forall (key_above bi h) new -> r <> WPanic PCounters ->
+  (r = WCont -> pass_running (cs_pass cs')) ->
+  step_post st0 ms0 p0 ix bi h new (cs', r).
+Proof.
+  intros HC Hk Hr Hrun. exists []. rewrite app_nil_r. cbn [fst snd].
+  split; [exact HC|]. split; [apply key_above_weaken; exact Hk|]. split; [exact Hr|exact Hrun].
+Qed.
+
+Lemma try_lower_spec st0 ms0 p0 ix cs new bi id t h slot e :
+  CInv st0 ms0 p0 ix cs new -> entry (cs_st cs) slot = Some e -> u_temp e = false ->
+  u_blk e = id -> u_off e = h -> In (bi, id) ix -> Forall (key_above bi h) new ->
+  find_id id (d_blocks (cs_st cs)) = Some t ->
+  pass_running (cs_pass cs) -> ps_bytes_moved (p_stats (cs_pass cs)) + u_size e <= p_max_bytes (cs_pass cs) ->
+  step_post st0 ms0 p0 ix bi h new (try_lower cs bi id t h slot e).
+Proof.
+  intros HC Hent Htemp Hblk Hoff Hix Hkeys Hfind Hrun Hfit.
+  pose proof (ci_wf _ _ _ _ _ _ HC) as HW.
+  destruct (wf_own _ HW _ _ Hent) as (_ & Hpa & Hs1).
+  destruct (wb_tinv _ (wf_b _ HW) _ _ Hfind) as (HT & Hg).
+  unfold try_lower.
+  pose proof (alloc_lower_spec t (u_size e) (u_align e) (u_kind e) h (tmp_tag (cs_st cs)) HT Hg Hpa) as Hs.
+  destruct (alloc_lower t (u_size e) (u_align e) (u_kind e) h (tmp_tag (cs_st cs))) as [t' off|t'|].
+  - destruct Hs as (HT' & Hg' & Hlt & _ & Hle). subst h id.
+    eapply commit_move_spec; eauto. apply ext_refl.
+  - destruct Hs as (HT' & Hg' & Hl). apply step_post_nil; auto; try discriminate.
+    apply cinv_set_st; auto.
+    + eapply wf_set_same; eauto.
+    + apply ext_set_block.
+  - apply step_post_nil; auto; discriminate.
+Qed.
+
+Lemma lower_if_spec st0 ms0 p0 ix cs new bi id h slot e :
+  CInv st0 ms0 p0 ix cs new -> entry (cs_st cs) slot = Some e -> u_temp e = false ->
+  u_blk e = id -> u_off e = h -> In (bi, id) ix -> Forall (key_above bi h) new ->
+  pass_running (cs_pass cs) -> ps_bytes_moved (p_stats (cs_pass cs)) + u_size e <= p_max_bytes (cs_pass cs) ->
+  step_post st0 ms0 p0 ix bi h new (lower_if cs bi id h slot e).
+Proof.
+  intros HC Hent Htemp Hblk Hoff Hix Hkeys Hrun Hfit. unfold lower_if.
+  destruct (find_id id (d_blocks (cs_st cs))) as [t|] eqn:Hf.
+  - destruct (negb (h =? 0) && may_have_free t (u_kind e) (u_size e)).
+    + eapply try_lower_spec; eauto.
+    + apply step_post_nil; auto; discriminate.
+  - apply step_post_nil; auto; discriminate.
+Qed.
+
+Lemma handle_alloc_spec st0 ms0 p0 ids cs new algo bi id h slot e :
+  let ix := indexed_from 0 ids in
+  CInv st0 ms0 p0 ix cs new -> entry (cs_st cs) slot = Some e -> u_temp e = false ->
+  u_blk e = id -> u_off e = h -> In (bi, id) ix -> Forall (key_above bi h) new ->
+  pass_running (cs_pass cs) -> ps_bytes_moved (p_stats (cs_pass cs)) + u_size e <= p_max_bytes (cs_pass cs) ->
+  step_post st0 ms0 p0 ix bi h new (handle_alloc algo ix cs bi id h slot e).
+Proof.
+  intros ix HC Hent Htemp Hblk Hoff Hix Hkeys Hrun Hfit.
+  pose proof (ci_wf _ _ _ _ _ _ HC) as HW.
+  destruct (wf_own _ HW _ _ Hent) as (_ & Hpa & Hs1).
+  assert (Hbi : 0 <= bi) by (apply indexed_from_in in Hix; lia).
+  assert (Hother : forall cs1 r,
+    (match alloc_other (cs_st cs) (firstn (Z.to_nat bi) ix) (u_size e) (u_align e) (u_kind e) with
+     | AOFound st' idx did off => commit_move cs st' slot e bi idx did off
+     | AONone st' => cs1 st'
+     | AOPanic st' => (cs_set_st cs st', WPanic PMeta)
+     end) = r ->
+    (forall st', WF st' -> ext (cs_st cs) st' -> d_table st' = d_table (cs_st cs) ->
+                 step_post st0 ms0 p0 ix bi h new (cs1 st')) ->
+    step_post st0 ms0 p0 ix bi h new r).
+  { intros cs1 r <- Hnone.
+    pose proof (alloc_other_spec (cs_st cs) (firstn (Z.to_nat bi) ix) (u_size e) (u_align e) (u_kind e) HW Hpa) as Hs.
+    destruct (alloc_other (cs_st cs) (firstn (Z.to_nat bi) ix) (u_size e) (u_align e) (u_kind e)) as [st' idx did off|st'|st'].
+    - destruct Hs as (Hin & _ & st1 & t & t2 & HW1 & He1 & Ht1 & Hf1 & -> & HT2 & Hg2 & Hle).
+      apply indexed_from_firstn in Hin. destruct Hin as (Hidx & Hinix). rewrite Z2Nat.id in Hidx by lia.
+      subst h id. eapply commit_move_spec; eauto.
+      + assert (Htt : tmp_tag st1 = tmp_tag (cs_st cs)).
+        { unfold tmp_tag. destruct He1 as (_ & -> & _). rewrite Ht1. reflexivity. }
+        rewrite Htt. exact Hle.
+      + left. lia.
+    - destruct Hs as (HW1 & He1 & Ht1). apply Hnone; auto.
+    - destruct Hs as (HW1 & He1 & Ht1). apply step_post_nil; auto; try discriminate.
+      apply cinv_set_st; auto. }
+  unfold handle_alloc. fold ix.
+  destruct (algo =? 0).
+  { eapply lower_if_spec; eauto. }
+  destruct (algo =? 1).
+  { destruct (bi =? 0).
+    - apply step_post_nil; auto; discriminate.
+    - eapply (Hother (fun st' => (cs_set_st cs st', WCont))); [reflexivity|].
+      intros st' HW' He' Ht'. apply step_post_nil; auto; try discriminate.
+      apply cinv_set_st; auto. }
+  destruct (0 <? bi).
+  - eapply (Hother (fun st' => lower_if (cs_set_st cs st') bi id h slot e)); [reflexivity|].
+    intros st' HW' He' Ht'. eapply lower_if_spec; eauto.
+    + apply cinv_set_st; auto.
+    + cbn [cs_set_st cs_st]. eapply ext_entry; eauto.
+  - eapply lower_if_spec; eauto.
+Qed.
+
+(* ------------------------------------------------------------------ one visit of the walk *)
+
+Lemma visit_spec st0 ms0 p0 ids cs new algo bi id h :
+  let ix := indexed_from 0 ids in
+  CInv st0 ms0 p0 ix cs new -> In (bi, id) ix -> Forall (key_above bi h) new ->
+  pass_running (cs_pass cs) ->
+  step_post st0 ms0 p0 ix bi h new (visit algo ix cs bi id h).
+Proof.
+  intros ix HC Hix Hkeys Hrun. unfold visit.
+  pose proof (ci_wf _ _ _ _ _ _ HC) as HW.
+  destruct (find_id id (d_blocks (cs_st cs))) as [t|] eqn:Hf.
+  2:{ apply step_post_nil; auto; discriminate. }
+  destruct (get_move_data (cs_st cs) t h) as [| |slot e] eqn:Hmd.
+  - apply step_post_nil; auto; discriminate.
+  - apply step_post_nil; auto; discriminate.
+  - destruct (get_move_data_spec _ _ _ _ _ _ HW Hf Hmd) as (Hent & Htemp & Hblk & Hoff).
+    destruct (check_counters (cs_pass cs) (u_size e)) as [p1 c] eqn:Hc.
+    destruct (check_counters_frame _ _ _ _ Hc) as (F1 & F2 & F3).
+    assert (HC1 : CInv st0 ms0 p0 ix (cs_set_pass cs p1) new) by (apply cinv_set_pass; auto).
+    assert (Hrun1 : pass_running (cs_pass (cs_set_pass cs p1))).
+    { cbn [cs_set_pass cs_pass]. unfold pass_running in *. rewrite F1, F2, F3. exact Hrun. }
+    destruct c.
+    + apply check_counters_pass in Hc. destruct Hc as (Hfit & _).
+      eapply handle_alloc_spec; eauto.
+      cbn [cs_set_pass cs_pass]. rewrite F1, F2. exact Hfit.
+    + apply step_post_nil; auto; discriminate.
+    + apply step_post_nil; auto; discriminate.
+Qed.
+
+(* ------------------------------------------------------------------ the walk *)
+
+Lemma next_alloc_lt t h h' : next_alloc t h = Some h' -> h' < h.
+Proof.
+  unfold next_alloc. generalize (iterate t). intros l. induction l as [|x l IH]; cbn; [discriminate|].
+  destruct (x <? h) eqn:E; cbn; [|exact IH]. intros H; injection H as <-. apply Z.ltb_lt. exact E.
+Qed.
+
+Definition walk_post (st0 : dstate) (ms0 : list move) (p0 : pass) (ix : list (Z * Z))
+           (new : list move) (res : cstate * wres) : Prop :=
+  exists add, CInv st0 ms0 p0 ix (fst res) (new ++ add) /\
+              snd res <> WPanic PCounters /\
+              (snd res = WCont -> pass_running (cs_pass (fst res))).
+
+Lemma walk_block_spec st0 ms0 p0 ids algo fuel : forall cs new bi id h,
+  let ix := indexed_from 0 ids in
+  CInv st0 ms0 p0 ix cs new -> In (bi, id) ix -> Forall (key_above bi h) new -> pass_running (cs_pass cs) ->
+  exists add, CInv st0 ms0 p0 ix (fst (walk_block fuel algo ix cs bi id h)) (new ++ add) /\
+              Forall (fun m => bi <= m_srcidx m) (new ++ add) /\
+              snd (walk_block fuel algo ix cs bi id h) <> WPanic PCounters /\
+              (snd (walk_block fuel algo ix cs bi id h) = WCont ->
+               pass_running (cs_pass (fst (walk_block fuel algo ix cs bi id h)))).
+Proof.
+  induction fuel as [|f IH]; intros cs new bi id h ix HC Hix Hkeys Hrun; cbn [walk_block].
+  - exists []. rewrite app_nil_r. cbn [fst snd]. split; [exact HC|]. split.
+    + eapply Forall_impl; [|exact Hkeys]. intros m [K|K]; lia.
+    + split; [discriminate|discriminate].
+  - pose proof (visit_spec st0 ms0 p0 ids cs new algo bi id h HC Hix Hkeys Hrun) as Hv. fold ix in Hv.
+    destruct (visit algo ix cs bi id h) as [cs' r] eqn:Hvis.
+    destruct Hv as (add & HC' & Hk' & Hnp & Hrun'). cbn [fst snd] in *.
+    assert (Hge : Forall (fun m => bi <= m_srcidx m) (new ++ add)).
+    { eapply Forall_impl; [|exact Hk']. intros m [K|K]; lia. }
+    destruct r as [| |w];
+      [|exists add; cbn [fst snd]; split; [exact HC'|split; [exact Hge|split; discriminate]]
+       |exists add; cbn [fst snd]; split; [exact HC'|split; [exact Hge|split; [exact Hnp|discriminate]]]].
+    destruct (find_id id (d_blocks (cs_st cs'))) as [t'|] eqn:Hf.
+    2:{ exists add. cbn [fst snd]. split; [exact HC'|split; [exact Hge|split; discriminate]]. }
+    destruct (next_alloc t' h) as [h'|] eqn:Hn.
+    2:{ exists add. cbn [fst snd]. auto. }
+    apply next_alloc_lt in Hn.
+    assert (Hk2 : Forall (key_above bi h') (new ++ add)).
+    { eapply Forall_impl; [|exact Hk']. intros m [K|K]; [left; exact K|right; lia]. }
+    destruct (IH cs' (new ++ add) bi id h' HC' Hix Hk2 (Hrun' eq_refl)) as (add2 & R1 & R2 & R3 & R4).
+    fold ix in R1, R2, R3, R4.
+    exists (add ++ add2). rewrite app_assoc. auto.
+Qed.
+
+Lemma walk_blocks_spec st0 ms0 p0 ids algo fuel srcs : forall cs new,
+  let ix := indexed_from 0 ids in
+  CInv st0 ms0 p0 ix cs new -> (forall x, In x srcs -> In x ix) -> idx_desc srcs ->
+  (forall m x, In m new -> In x srcs -> fst x < m_srcidx m) -> pass_running (cs_pass cs) ->
+  walk_post st0 ms0 p0 ix new (walk_blocks fuel algo ix cs srcs).
+Proof.
+  induction srcs as [|[bi id] rest IH]; intros cs new ix HC Hin Hdesc Habove Hrun; cbn [walk_blocks].
+  - exists []. rewrite app_nil_r. cbn [fst snd]. split; [exact HC|]. split; [discriminate|auto].
+  - destruct (idx_desc_tail _ _ Hdesc) as (Hdesc' & Hlt).
+    assert (Hix : In (bi, id) ix) by (apply Hin; left; reflexivity).
+    assert (Hin' : forall x, In x rest -> In x ix) by (intros x Hx; apply Hin; right; exact Hx).
+    destruct (find_id id (d_blocks (cs_st cs))) as [t|] eqn:Hf.
+    2:{ exists []. rewrite app_nil_r. cbn [fst snd]. split; [exact HC|]. split; discriminate. }
+    destruct (list_begin t) as [|h|] eqn:Hlb.
+    + apply IH; auto. intros m x Hm Hx. apply Habove; [exact Hm|right; exact Hx].
+    + assert (Hk : Forall (key_above bi h) new).
+      { apply Forall_forall. intros m Hm. left. apply (Habove m (bi, id) Hm). left. reflexivity. }
+      destruct (walk_block_spec st0 ms0 p0 ids algo fuel cs new bi id h HC Hix Hk Hrun) as (add & R1 & R2 & R3 & R4).
+      fold ix in R1, R2, R3, R4.
+      destruct (walk_block fuel algo ix cs bi id h) as [cs' r] eqn:Hwb. cbn [fst snd] in *.
+      destruct r as [| |w];
+        [|exists add; cbn [fst snd]; split; [exact R1|split; discriminate]
+         |exists add; cbn [fst snd]; split; [exact R1|split; [exact R3|discriminate]]].
+      assert (Habove' : forall m x, In m (new ++ add) -> In x rest -> fst x < m_srcidx m).
+      { intros m x Hm Hx. rewrite Forall_forall in R2. specialize (R2 _ Hm). specialize (Hlt _ Hx). cbn in Hlt. lia. }
+      destruct (IH cs' (new ++ add) R1 Hin' Hdesc' Habove' (R4 eq_refl)) as (add2 & S1 & S2 & S3).
+      exists (add ++ add2). rewrite app_assoc. auto.
+    + exists []. rewrite app_nil_r. cbn [fst snd]. split; [exact HC|]. split; discriminate.
+Qed.
+
+(* ------------------------------------------------------------------ BlockListCollectMoves *)
+
+Lemma cinv_init st ms0 p ix : WF st -> pass_running p -> CInv st ms0 p ix (mkCS st ms0 p) [].
+Proof.
+  intros HW Hrun. constructor; cbn [cs_st cs_moves cs_pass].
+  - exact HW.
+  - apply ext_refl.
+  - rewrite app_nil_r. reflexivity.
+  - constructor.
+  - split; constructor.
+  - constructor.
+  - intros s e Hs He. apply entry_lt in He. lia.
+  - unfold pass_tracks, zlen. cbn. repeat split; lia.
+  - apply running_within. exact Hrun.
+Qed.
+
+Lemma collect_moves_inv st c p :
+  WF st -> pass_running p ->
+  exists new, CInv st (c_moves c) p (indexed st) (fst (collect_moves st c p)) new /\
+              snd (collect_moves st c p) <> WPanic PCounters.
+Proof.
+  intros HW Hrun. unfold collect_moves.
+  set (cs0 := mkCS st (c_moves c) p).
+  pose proof (cinv_init st (c_moves c) p (indexed st) HW Hrun) as HC0. fold cs0 in HC0.
+  assert (Hwalk : forall algo,
+    exists new, CInv st (c_moves c) p (indexed st)
+                     (fst (walk_blocks (walk_fuel st) algo (indexed st) cs0 (rev (skipn (Z.to_nat (c_immovable c)) (indexed st))))) new /\
+                snd (walk_blocks (walk_fuel st) algo (indexed st) cs0 (rev (skipn (Z.to_nat (c_immovable c)) (indexed st)))) <> WPanic PCounters).
+  { intros algo. unfold indexed in *.
+    destruct (walk_blocks_spec st (c_moves c) p (map fst (d_blocks st)) algo (walk_fuel st)
+                (rev (skipn (Z.to_nat (c_immovable c)) (indexed_from 0 (map fst (d_blocks st))))) cs0 [] HC0)
+      as (add & R1 & R2 & _).
+    - intros x. apply srcs_in.
+    - apply srcs_desc.
+    - intros m x [].
+    - exact Hrun.
+    - exists ([] ++ add). auto. }
+  assert (Hnil : exists new, CInv st (c_moves c) p (indexed st) (fst (cs0, WCont)) new /\ snd (cs0, WCont) <> WPanic PCounters).
+  { exists []. split; [exact HC0|discriminate]. }
+  destruct (1 <? zlen (d_blocks st)).
+  - destruct (c_algo c =? 1); [apply Hwalk|]. destruct (c_algo c =? 2); [apply Hwalk|].
+    exists []. split; [exact HC0|discriminate].
+  - destruct ((zlen (d_blocks st) =? 1) && negb (c_algo c =? 1)); [apply Hwalk|exact Hnil].
+Qed.
+
+(* the allocation objects a pending move refers to: the source is a user allocation at the
+   recorded place, the destination a temporary at the proposed place, both of the move's size *)
+Definition reserved (st : dstate) (m : move) : Prop :=
+  (exists es, entry st (m_src m) = Some es /\ u_temp es = false /\ u_blk es = m_srcblk m /\
+              u_off es = m_srcoff m /\ u_size es = m_size m) /\
+  (exists et, entry st (m_tmp m) = Some et /\ u_temp et = true /\ u_blk et = m_dstblk m /\
+              u_off et = m_dstoff m /\ u_size et = m_size m).
+
+Lemma move_ok_reserved st0 st ix m : ext st0 st -> move_ok st0 st ix m -> reserved st m.
+Proof.
+  intros He [_ _ _ (es & E1 & E2) D _]. split; [|exact D]. exists es. split; [eapply ext_entry; eauto|exact E2].
+Qed.
+
+Lemma NoDup_map_coarser {A B C} (f : A -> B) (g : A -> C) l :
+  NoDup (map f l) -> (forall a b, In a l -> In b l -> g a = g b -> f a = f b) -> NoDup (map g l).
+Proof.
+  induction l as [|x l IH]; cbn; intros Hnd Hfg; [constructor|].
+  inversion Hnd as [|? ? Hx Hl]; subst. constructor.
+  - intros Hin. apply in_map_iff in Hin. destruct Hin as (y & Hy & Hin). apply Hx.
+    rewrite <- (Hfg y x); [apply in_map; exact Hin|right; exact Hin|left; reflexivity|exact Hy].
+  - apply IH; auto. intros a b Ha Hb. apply Hfg; right; auto.
+Qed.
+
+Section CollectTheorems.
+  Variables (st : dstate) (c : dctx) (mb ma : Z).
+  Hypothesis HW : WF st.
+  Hypothesis Hma : 1 <= ma.
+  Hypothesis Hmb : 0 <= mb.
+  Hypothesis Hfresh : c_moves c = [].      (* BlockListCompletePass resets the list *)
+
+  Let p := pass_init mb ma.
+  Let res := collect_moves st c p.
+  Let cs := fst res.
+  Let ix := indexed st.
+
+  Lemma collect_cinv : exists new, CInv st [] p ix cs new /\ snd res <> WPanic PCounters /\ cs_moves cs = new.
+  Proof.
+    destruct (collect_moves_inv st c p HW (pass_init_running mb ma Hmb Hma)) as (new & HC & Hnp).
+    rewrite Hfresh in HC. exists new. split; [exact HC|]. split; [exact Hnp|].
+    rewrite (ci_moves _ _ _ _ _ _ HC). reflexivity.
+  Qed.
+
+  (* C15 (1): the moves of a pass stay within both limits, the counters never panic, and the
+     pass statistics are exactly the proposed moves *)
+  Theorem collect_within_limits :
+    snd res <> WPanic PCounters /\
+    zlen (cs_moves cs) <= ma /\ zsum (map m_size (cs_moves cs)) <= mb /\
+    ps_allocs_moved (p_stats (cs_pass cs)) = zlen (cs_moves cs) /\
+    ps_bytes_moved (p_stats (cs_pass cs)) = zsum (map m_size (cs_moves cs)).
+  Proof.
+    destruct collect_cinv as (new & HC & Hnp & ->). split; [exact Hnp|].
+    destruct (ci_pass _ _ _ _ _ _ HC) as (M1 & M2 & A & B & _).
+    destruct (ci_within _ _ _ _ _ _ HC) as ((_ & W1) & (_ & W2)).
+    cbn [p pass_init p_max_bytes p_max_allocs p_stats ps_zero ps_allocs_moved ps_bytes_moved] in *. lia.
+  Qed.
+
+  (* C15 (2): every proposed move goes to an earlier block of the list, or to a lower offset of
+     the same block *)
+  Theorem moves_forward :
+    forall m, In m (cs_moves cs) ->
+      In (m_srcidx m, m_srcblk m) ix /\ In (m_dstidx m, m_dstblk m) ix /\
+      (m_dstidx m < m_srcidx m \/ (m_dstblk m = m_srcblk m /\ m_dstoff m < m_srcoff m)).
+  Proof.
+    destruct collect_cinv as (new & HC & _ & ->). intros m Hm.
+    pose proof (ci_ok _ _ _ _ _ _ HC) as Hok. rewrite Forall_forall in Hok.
+    destruct (Hok _ Hm) as [A B C _ _ _]. auto.
+  Qed.
+
+  (* C07 (3): the source of every proposed move is a live allocation of the caller (not a
+     temporary), at the place the move says, and no slot is the source of two moves *)
+  Theorem sources_are_user_allocs_once :
+    (forall m, In m (cs_moves cs) ->
+       exists es, entry st (m_src m) = Some es /\ entry (cs_st cs) (m_src m) = Some es /\ u_temp es = false /\
+                  u_blk es = m_srcblk m /\ u_off es = m_srcoff m /\ u_size es = m_size m) /\
+    NoDup (map m_src (cs_moves cs)) /\ NoDup (map m_tmp (cs_moves cs)) /\
+    (forall m m', In m (cs_moves cs) -> In m' (cs_moves cs) -> m_src m <> m_tmp m').
+  Proof.
+    destruct collect_cinv as (new & HC & _ & ->).
+    pose proof (ci_ok _ _ _ _ _ _ HC) as Hok. rewrite Forall_forall in Hok.
+    split; [|split; [|split]].
+    - intros m Hm. destruct (Hok _ Hm) as [_ _ _ (es & E1 & E2) _ _]. exists es.
+      split; [exact E1|]. split; [eapply ext_entry; [apply (ci_ext _ _ _ _ _ _ HC)|exact E1]|exact E2].
+    - eapply NoDup_map_coarser; [apply (ci_keys _ _ _ _ _ _ HC)|].
+      intros a b Ha Hb Hsrc.
+      destruct (Hok _ Ha) as [Ia _ _ (ea & A1 & _ & A3 & A4 & _) _ _].
+      destruct (Hok _ Hb) as [Ib _ _ (eb & B1 & _ & B3 & B4 & _) _ _].
+      rewrite Hsrc in A1. rewrite A1 in B1. injection B1 as <-.
+      assert (Hblk : m_srcblk a = m_srcblk b) by congruence.
+      assert (Hoff : m_srcoff a = m_srcoff b) by congruence.
+      rewrite Hblk in Ia. unfold ix, indexed in Ia, Ib.
+      pose proof (indexed_from_id_fun _ _ _ _ _ (wb_ids _ (wf_b _ HW)) Ia Ib). congruence.
+    - apply (ci_tmps _ _ _ _ _ _ HC).
+    - intros m m' Hm Hm' Heq.
+      destruct (Hok _ Hm) as [_ _ _ (es & E1 & _) _ _]. destruct (Hok _ Hm') as [_ _ _ _ _ T].
+      apply entry_lt in E1. lia.
+  Qed.
+
+  Theorem collect_reserves : WF (cs_st cs) /\ ext st (cs_st cs) /\ Forall (reserved (cs_st cs)) (cs_moves cs).
+  Proof.
+    destruct collect_cinv as (new & HC & _ & ->).
+    split; [apply (ci_wf _ _ _ _ _ _ HC)|]. split; [apply (ci_ext _ _ _ _ _ _ HC)|].
+    eapply Forall_impl; [|apply (ci_ok _ _ _ _ _ _ HC)]. intros m. apply move_ok_reserved. apply (ci_ext _ _ _ _ _ _ HC).
+  Qed.
+End CollectTheorems.
